@@ -33,6 +33,8 @@ OUTSIDE = "5-6 parameters; loading from yml/csv files (file I/O); expressions ou
 NAMES_FLAT = ["a", "b", "c", "d"]
 NAMES_NESTED = ["rates.k1", "rates.k2", "amp.1", "b"]
 
+FLOAT_SELFCHECK = True
+
 
 def preload():
     import glotaran.parameter.parameters  # noqa: F401
